@@ -2,6 +2,7 @@
 use std::collections::HashSet;
 use std::ops::Deref;
 use std::rc::Rc;
+use std::sync::Arc;
 
 #[cfg(feature = "css")]
 mod parser;
@@ -406,13 +407,15 @@ impl std::fmt::Display for StyleDecl {
 #[derive(Debug, Clone, PartialEq, Eq)]
 pub(crate) struct Ruleset {
     pub(crate) selector: Selector,
-    pub(crate) styles: Vec<StyleDecl>,
+    // Shared between the rulesets made from one selector list (and between
+    // the copies of the style data made for each rendering).
+    pub(crate) styles: Arc<[StyleDecl]>,
 }
 
 impl std::fmt::Display for Ruleset {
     fn fmt(&self, f: &mut std::fmt::Formatter<'_>) -> std::fmt::Result {
         writeln!(f, "  {} {{", self.selector)?;
-        for decl in &self.styles {
+        for decl in self.styles.iter() {
             writeln!(f, "    {}", decl)?;
         }
         writeln!(f, "  }}")?;
@@ -540,12 +543,12 @@ impl StyleData {
         let (_, ss) = parser::parse_stylesheet(css).map_err(|_| crate::Error::CssParseError)?;
 
         for rule in ss {
-            let styles = styles_from_properties(&rule.declarations);
+            let styles: Arc<[StyleDecl]> = styles_from_properties(&rule.declarations).into();
             if !styles.is_empty() {
                 for selector in rule.selectors {
                     let ruleset = Ruleset {
                         selector,
-                        styles: styles.clone(),
+                        styles: Arc::clone(&styles),
                     };
                     html_trace_quiet!("Adding ruleset {ruleset:?}");
                     rules.push(ruleset);
